@@ -629,11 +629,15 @@ func replayPreload(n *Native, job *Job, v *Violation) (ReplayResult, bool) {
 	if !ok1 || !ok2 || !ok3 {
 		return ReplayResult{Observed: "cannot make the skeleton concrete"}, true
 	}
-	files := map[string]string{"a.rb": ct, "p0.rb": p0, ".ti-loader.json": `{"preload": ["p0.rb"]}`}
+	n0, n1 := v.Witness["C18.name0"], v.Witness["C18.name1"]
+	if n0 == "" {
+		n0, n1 = "p0.rb", "p1.rb"
+	}
+	files := map[string]string{"a.rb": ct, n0: p0, ".ti-loader.json": `{"preload": ["` + n0 + `"]}`}
 	if p1, have := v.Witness["pre1"]; have {
 		c1, _ := concretizeSym(p1, v.Witness)
-		files["p1.rb"] = c1
-		files[".ti-loader.json"] = `{"preload": ["p0.rb", "p1.rb"]}`
+		files[n1] = c1
+		files[".ti-loader.json"] = `{"preload": ["` + n0 + `", "` + n1 + `"]}`
 	}
 	var pre int
 	fmt.Sscanf(v.Witness["C18.prelines"], "%d", &pre)
@@ -648,7 +652,7 @@ func replayPreload(n *Native, job *Job, v *Violation) (ReplayResult, bool) {
 	res := ReplayResult{Cmd: "ti ./a.rb with .ti-loader.json + preload files vs. ti on the concatenation",
 		Observed: fmt.Sprintf("concatenation (target part, rebased): %q; preload run: %q", want, outSplit)}
 	if v.ID == "C18-hidden" {
-		res.Reproduced = strings.Contains(outSplit, "p0.rb") || strings.Contains(outSplit, "p1.rb")
+		res.Reproduced = strings.Contains(outSplit, n0) || strings.Contains(outSplit, n1)
 	} else {
 		res.Reproduced = outSplit != want
 	}
